@@ -12,12 +12,13 @@ Record case := {
 
 Definition prop_ok (c : case) : bool := i_returned c && negb (i_panic c) && negb (i_leak c) && i_closed c && i_prompt c.
 
-(* optimistic provide, uncancelled, no deadline: Provide returns after exactly
-   the number of completions the model predicts *)
+(* optimistic provide, uncancelled, no deadline: Provide cannot return before the
+   number of completions the model predicts were delivered (records stored early,
+   while the lookup was still running, may all have completed before it returns) *)
 Definition agrees (c : case) : bool :=
   if c_optimistic c && negb (c_cancelled c) && negb (c_deadline c) && Nat.eqb (c_op c) 8
   then match returns_after (c_K c) (c_rpc_total c) with
-       | Ok n => Nat.eqb n (c_rpc_before_return c)
+       | Ok n => Nat.leb n (c_rpc_before_return c) && Nat.leb (c_rpc_before_return c) (c_rpc_total c)
        | _ => negb (i_returned c)
        end
   else true.
